@@ -177,6 +177,14 @@ def plan(tier, seed):
     for first in syms:
         tasks.append(("D", tier, first))
     tasks.append(("U", tier))
+    # valid programs with comment / unresolved INCLUDE / preprocessor lines in
+    # the gaps (inputs a robust parser meets constantly), also as mutation bases
+    names_b = [n for n, _ in G.EXEC_CONSTRUCTS]
+    for d in (1, 2):
+        for first in names_b:
+            tasks.append(("V", tier, "B", first, d))
+    for pid in sorted(corpus.corpus()):
+        tasks.append(("V", tier, "E", pid, 0))
     if b["pairs"]:
         for j in range(0, len(ts), 2):
             tasks.append(("P", tier, tuple(t[0] for t in ts[j : j + 2])))
@@ -255,6 +263,44 @@ def run(task):
             res.sample({"file_bytes": repr(base[:20] + b"\xff" + base[21:40])})
         finally:
             shutil.rmtree(tmp, ignore_errors=True)
+    elif kind == "V":
+        from mc import scenarios
+
+        _, _, layer, what, d = task
+        if layer == "E":
+            progs = [("E/" + what, corpus.corpus()[what])]
+        else:
+            progs = []
+            for seq in scenarios.kind_sequences(what, d):
+                ch, prog = explore.run(scenarios.nest_scenario(seq), ())
+                progs.append(("B/" + "-".join(seq), prog))
+        extras = ["! a comment", "include 'no_such_file.inc'", "#define X 1", "!$omp parallel", "#ifdef X", ""]
+        for pid, prog in progs:
+            stmts = [s.line() for s in prog if s.kind != "program_anon"]
+            base = "\n".join(" " + l for l in stmts) + "\n"
+            stds = G.stds_for(prog)
+            light = tier == "quick" and (d == 2 or layer == "E")
+            if light:
+                stds = stds[-1:]
+            n = len(stmts)
+            step = 1 if layer == "B" else 3
+            for gi in range(0, n + 1, step):
+                for ex in (extras[:3] if light else extras):
+                    text = "\n".join([" " + l for l in stmts[:gi]] + [ex if ex.startswith("#") else " " + ex] + [" " + l for l in stmts[gi:]]) + "\n"
+                    for std in stds:
+                        for ic in (True, False):
+                            run_one(res, text, std, ic, "%s + %r before statement %d" % (pid, ex, gi + 1), base)
+            # every gap filled
+            for ex in extras[:4]:
+                lines = []
+                for l in stmts:
+                    lines.append(ex if ex.startswith("#") else " " + ex)
+                    lines.append(" " + l)
+                text = "\n".join(lines) + "\n"
+                for std in stds:
+                    for ic in (True, False):
+                        run_one(res, text, std, ic, "%s + %r in every gap" % (pid, ex), base)
+        res.sample({"program": progs[0][0], "input": "\n".join([" " + l for l in stmts[:2]] + ["#define X 1"] + [" " + l for l in stmts[2:4]])})
     elif kind == "P":
         alphabet = ["(", ")", ",", "=", ":", "'", "end", "&"]
         tmap = {t[0]: t for t in G.templates()}
